@@ -12,6 +12,7 @@ import argparse
 import fcntl
 import json
 import os
+import re
 import shutil
 import sys
 import time
@@ -143,6 +144,11 @@ def run_property(pid, spec, tier, seed, scratch, logdir, a, t0):
 
     extra_results = []
     for fn in spec.get("extra", []):
+        if isinstance(fn, str):
+            import importlib
+
+            modn, fnn = fn.split(":")
+            fn = getattr(importlib.import_module(modn), fnn)
         try:
             extra_results += fn(scratch, tier, seed, logdir)
         except Exception as e:  # noqa: BLE001
@@ -199,12 +205,15 @@ def run_property(pid, spec, tier, seed, scratch, logdir, a, t0):
     viol_lines = []
     for r, unlisted in violations:
         if r.get("replay_kind") == "smt":
-            # E2: the extra checker has already replayed its model natively
+            # E2: replay the model by a generated #[test] against the real function
             for f in unlisted:
-                if f.get("reproduced"):
-                    viol_lines.append((r["harness"], f, f.get("replay_path")))
+                ok, path = replay_smt_model(pid, scratch, r, f)
+                if ok is True:
+                    viol_lines.append((r["harness"], f, path))
+                elif ok is False:
+                    inconclusive.append((r["harness"], "SMT model did not reproduce natively (encoding suspect): " + f["desc"]))
                 else:
-                    inconclusive.append((r["harness"], "SMT model did not reproduce natively: " + f["desc"]))
+                    inconclusive.append((r["harness"], "SMT model could not be replayed: " + f["desc"]))
             continue
         reps = replay_failures(pid, scratch, info, r, unlisted, logdir)
         for f, path, status in reps:
@@ -226,7 +235,7 @@ def run_property(pid, spec, tier, seed, scratch, logdir, a, t0):
     wall = time.time() - t0
     if not a.no_evidence and not a.only:
         write_evidence(pid, spec, tier, seed, results + extra_results, known_hits, viol_lines, inconclusive, wall, seg_info)
-    n_pass = sum(1 for r in results + extra_results if r["outcome"] == "pass")
+    n_pass = sum(1 for r in results + extra_results if r["outcome"] == "pass" or (r["outcome"] == "fail" and not r.get("own_failed")))
     print(f"[{pid}/{tier}] harnesses/queries: {len(results)+len(extra_results)} pass={n_pass} violations={len(viol_lines)} known={len(seen)} inconclusive={len(inconclusive)} wall={wall:.0f}s")
     return rc
 
@@ -237,7 +246,7 @@ def replay_failures(pid, scratch, info, r, unlisted, logdir):
     pool = TdPool()
     td, lk = pool.acquire()
     try:
-        pr = kani.run(scratch, r["harness"], td, 3600, 24, (), logdir, playback=True, full=r.get("full"))
+        pr = kani.run(scratch, r["harness"], td, 5400, 44, (), logdir, playback=True, full=r.get("full"))
         tests = pr.get("playback_tests", [])
         rcopy = prep.make_replay_copy(scratch)
         hfile = find_harness_file(os.path.join(rcopy, "verif_harness"), r["harness"])
@@ -264,12 +273,39 @@ def replay_failures(pid, scratch, info, r, unlisted, logdir):
     return out
 
 
+def replay_smt_model(pid, scratch, r, f):
+    import re
+    import subprocess
+
+    rt = f.get("replay_test")
+    if not rt:
+        return None, None
+    rcopy = prep.make_replay_copy(scratch)
+    try:
+        with open(os.path.join(rcopy, rt["file"]), "a") as fh:
+            fh.write("\n" + rt["code"])
+        env = dict(os.environ, CARGO_NET_OFFLINE="true", CARGO_TARGET_DIR=os.path.join(CACHE, "td-native"))
+        p = subprocess.run(f"cargo test --offline --lib {rt['name']}", shell=True, cwd=rcopy, env=env, text=True, capture_output=True, timeout=1800)
+        out = p.stdout + p.stderr
+        m = re.search(r"^test \S*" + re.escape(rt["name"]) + r" \.\.\. (\w+)", out, re.M)
+        ok = None if not m else (m.group(1) == "FAILED")
+        rid = kani.replay_id(r["harness"] + f["desc"] + rt["code"])
+        rp = os.path.join(VERIF, "replays", f"{pid}-{r['harness']}-{rid}.rs")
+        os.makedirs(os.path.dirname(rp), exist_ok=True)
+        with open(rp, "w") as fh:
+            fh.write(f"// property={pid} harness={r['harness']} kind=smt-model file={rt['file']} test={rt['name']}\n// failed query: {f['desc']}\n// model: {f.get('model')}\n// native replay reproduced: {ok}\n{rt['code']}\n/* log tail:\n{out[-2000:].replace('*/','* /')}\n*/\n")
+        return ok, rp
+    finally:
+        shutil.rmtree(rcopy, ignore_errors=True)
+
+
 def find_harness_file(hdir, harness):
     fn = harness.split("::")[-1]
     for f in os.listdir(hdir):
         p = os.path.join(hdir, f)
         try:
-            if f"fn {fn}(" in open(p).read():
+            txt = open(p).read()
+            if f"fn {fn}(" in txt or re.search(r"\b" + re.escape(fn) + r"\b", txt):
                 return p
         except Exception:  # noqa: BLE001
             pass
